@@ -55,7 +55,11 @@ def scribble(form):
 
 
 def form_of(rng, comps):
-    k = rng.randrange(9)
+    k = rng.randrange(11)
+    if k == 9:
+        return iter([bytes(c) for c in comps]), 'iterator'
+    if k == 10:
+        return (rc.comp_to_canonical_uri(c) if i % 2 else bytes(c) for i, c in enumerate(list(comps))), 'generator'
     if k == 7:
         return bytearray(rc.enc_name(list(comps))), 'encoded-bytearray'
     if k == 8:
